@@ -128,7 +128,11 @@ def run_cases(ctx: Ctx, cases: Iterable[Case], res: Result,
     for case in cases:
         n += 1
         cfg = pl.config_lines(case.phens, case.cache)
+        opaque_before = pl.OPAQUE['on']
+        if '+opaque' in case.tag:
+            pl.OPAQUE['on'] = True
         rd = RealDecider(case.phens, case.cache)
+        rd.bomb.armed = '+bomb' in case.tag
         outs = []
         rdec = ref.RefDecider(case.phens) if use_ref else None
         bad = None
@@ -175,6 +179,9 @@ def run_cases(ctx: Ctx, cases: Iterable[Case], res: Result,
                 {**case.to_json(), 'failing_step': k, 'expected': exp, 'observed': o}))
         if per_case is not None:
             per_case(case, rd, outs, res)
+        pl.OPAQUE['on'] = opaque_before
+        if '+nomodel' in case.tag:     # (inputs outside the model's vocabulary: judged by the oracles alone)
+            continue
         index.append((case, len(all_lines) + len(cfg)))
         all_lines += cfg + case.ops
         all_impl += ['ok'] * len(cfg) + outs
